@@ -1921,3 +1921,62 @@ def c01_index_perm_cases(rng, n):
             f.attrs = [mattr('map', member=f.attrs[0].member)]
         out.append(Item('struct', 'S', 'named' if named else 'tuple', '', attrs2, fields, {'gen': 'c01_index_perm', 'hints': {'D': hint.strip()}}))
     return out
+
+
+# ---------------------------------------------------------------------------------------------
+# C07: several flavours of ONE mapping, with instructions that apply to all of them alike
+# ---------------------------------------------------------------------------------------------
+def c07_cases(rng, n):
+    out = []
+    for i in range(n):
+        if rng.random() < 0.7:
+            shape = rng.choice(['named', 'named', 'tuple'])
+            named = shape == 'named'
+            hint = rng.choice(['', '', ' as {}', ' as ()'])
+            dnamed = (hint == ' as {}') or (hint == '' and named)
+            params = rng.choice(['', '', '', 'vars(k: { 1 })'])
+            names = rng.choice([['map', 'into_existing', 'try_map', 'try_into_existing'], ['into', 'into_existing'], ['map', 'try_map'],
+                                ['owned_into', 'ref_into', 'owned_into_existing', 'ref_try_into_existing', 'owned_try_into'],
+                                ['from_owned', 'from_ref', 'try_from_owned', 'try_from_ref']])
+            attrs = [trait_attr(nm, 'A', hint, 'Er', params) for nm in names]
+            fields = []
+            for j in range(rng.randrange(1, 6)):
+                fa = []
+                r = rng.random()
+                member = ('n%d' % j) if dnamed else None
+                if r < 0.25 and member is not None:
+                    fa.append(mattr('map', member=member))
+                elif r < 0.45:
+                    fa.append(mattr('map', member=member, expr=rng.choice(C01_EXPRS), braced=rng.random() < 0.5))
+                elif r < 0.6:
+                    fa.append(gattr('ghost', default=rng.choice(['0', 'd()'])))
+                elif r < 0.7:
+                    fa.append(astype_attr('i64', member=member if rng.random() < 0.5 else None))
+                elif not named and dnamed:
+                    fa.append(mattr('map', member=member))
+                if not named and dnamed and not fa:
+                    fa.append(mattr('map', member='n%d' % j))
+                fields.append(Field(('a%d' % j) if named else None, 'i32', fa))
+            if rng.random() < 0.3:
+                attrs.append(Attr('ghosts', 'gx: { 7 }' if dnamed else '%d: { 7 }' % len([f for f in fields if not any(a.name == 'ghost' for a in f.attrs)])))
+            out.append(Item('struct', 'S', shape, '', attrs, fields, {'gen': 'c07_struct'}))
+        else:
+            names = rng.choice([['map', 'try_map'], ['from_owned', 'from_ref', 'try_from_owned', 'try_from_ref'], ['owned_into', 'ref_into', 'owned_try_into', 'ref_try_into']])
+            params = rng.choice(['', '', '_ { dflt() }'])
+            attrs = [trait_attr(nm, 'A', '', 'Er', params) for nm in names]
+            vs = []
+            for j in range(rng.randrange(1, 5)):
+                sh = rng.choice(['unit', 'tuple', 'named'])
+                va = []
+                r = rng.random()
+                if r < 0.3:
+                    va.append(Attr('map', 'W%d' % j))
+                elif r < 0.4:
+                    va.append(Attr('ghost', '{ dv() }'))
+                elif r < 0.5:
+                    va.append(Attr('type_hint', rng.choice(['as {}', 'as ()'])))
+                fs = [] if sh == 'unit' else [Field('x%d' % q if sh == 'named' else None, 'i32', [Attr('map', rng.choice(['k%d' % q, 'k%d, ~ + 1' % q]))] if rng.random() < 0.5 and sh == 'named' else [])
+                                              for q in range(rng.randrange(1, 3))]
+                vs.append(Variant('V%d' % j, sh, fs, va))
+            out.append(Item('enum', 'E', 'named', '', attrs, vs, {'gen': 'c07_enum'}))
+    return out
